@@ -234,6 +234,11 @@ def make_edits(src, classes, spans, detail, rnd, per_kind):
         edits.append(("comment-line-indented", ins(k, " " * rnd.choice([1, 2, 3, 4, 7, 8, 12]) + "# note: x = 1\n")))
     for k in pick(starts):
         edits.append(("comment-line-tab", ins(k, "\t# tabbed\n")))
+    # the CONTENT of a comment is irrelevant too: non-ASCII scalars of every UTF-8 width (a lexer that mixes byte and
+    # character counts while skipping a comment swallows the beginning of the next line)
+    for k in pick(starts):
+        edits.append(("comment-line-nonascii", ins(k, rnd.choice(["# n \u2265 11 \u2192 \u201cbig\u201d (see \u00a72)\n", "# \u00e9\u00e9\u00e9\n",
+                                                                  "# \U0001F600\U0001F600 astral\n", "    # \u20ac\u20ac\u20ac\u20ac\u20ac\u20ac\n"]))))
     for k in pick(starts):
         edits.append(("blank-line", ins(k, "\n")))
     for k in pick(starts):
@@ -243,6 +248,8 @@ def make_edits(src, classes, spans, detail, rnd, per_kind):
     # a trailing comment must not land inside brackets' string etc.: any unprotected newline is fine
     for k in pick(nls):
         edits.append(("trailing-comment", ins(k, "  # trailing )")))
+    for k in pick(nls):
+        edits.append(("trailing-comment-nonascii", ins(k, rnd.choice(["  # \u2265\u2192\u201c\u201d\u00a7", "  # \u00e9", "  # \U0001F600\U0001F600\U0001F600"]))))
     for k in pick(nls):
         edits.append(("crlf-one-line", ins(k, "\r")))
     if nls:
